@@ -6,6 +6,7 @@ import Exetera.Lemmas.Offsets
 import Exetera.Lemmas.IndexedWriter
 import Exetera.Lemmas.IndexedReader
 import Exetera.Lemmas.Variants
+import Exetera.Gen.FieldTypeMap
 /-!
   C01 — field storage round-trip: what is written is what is read.
 
@@ -246,6 +247,28 @@ theorem reopen_dispatch (k : Kind) : reopenClass k = .ok k.cls := by
   cases k <;> rfl
 
 example : reopenClass (.fixedString 5) = .ok .FixedStringField := rfl
+
+/-! The same over the tables that `tools/translate.py` regenerates from the source text of session.py / fields.py /
+    dataframe.py on every run (`Gen/FieldTypeMap.lean`): these theorems are re-checked against what the code says now. -/
+
+/-- Source level: for every `HDF5DataFrame.create_*` method, the constructor it calls writes a `fieldtype` attribute
+    whose head `Session.get`'s `fieldtype_map` maps to the very class the method wrapped the new group in. -/
+theorem reopen_dispatch_source :
+    Gen.FieldTypeMap.createMethods.all (fun m =>
+      Gen.FieldTypeMap.constructorAttr.any (fun a =>
+        a.1 == m.2.1 && Gen.FieldTypeMap.fieldtypeMap.lookup a.2.1 == some m.2.2)) = true := by decide
+
+/-- The hand-written dispatch table of the model agrees with the source's `fieldtype_map` on every key of the source, -/
+theorem model_fieldtypeMap_matches_source :
+    Gen.FieldTypeMap.fieldtypeMap.all (fun p => (fieldtypeMap p.1).map FieldClass.name == some p.2) = true := by decide
+
+/-- and every attribute head the model's constructors write is one a source constructor writes. -/
+theorem model_fieldtypeHead_in_source (k : Kind) :
+    Gen.FieldTypeMap.constructorAttr.any (fun a => a.2.1 == k.fieldtypeHead) = true := by
+  cases k <;> simp only [Kind.fieldtypeHead] <;> decide
+
+/-- Source level (D32): the categorical constructor passes the field's own `nformat` as dtype of `key_values`. -/
+theorem key_values_dtype_source : Gen.FieldTypeMap.keyValuesDtype = "nformat" := by decide
 example : readDtype .repaired false "int32" false = "int32" := rfl
 example : fieldLen (offsets [[97], [], [98, 99]]) = 3 := rfl
 
